@@ -414,18 +414,48 @@ def rule_alias(run: Run, prog: Program) -> int:
 def rule_action(run: Run, prog: Program) -> int:
     run.rule(
         "E17",
-        "the action t * x, interpreted for every kind of object (absint: Tensor.__apply__ and the __apply__ overrides that build a diagram, the "
-        "TensorDiagram bookkeeping, the real Tensor.__init__; np.einsum recorded): every covariant index of x is contracted with the SECOND index of "
-        "a copy of the matrix, every contravariant index with the FIRST index of a copy of the inverse, collection axes of x and of a "
-        "transformation collection are broadcast from the right, and in the result every axis has the index type of the axis of x it replaces",
+        "the action t * x, interpreted for every kind of object (absint: Tensor.__apply__, every __apply__ override of a quadric class that replaces it, "
+        "the TensorDiagram bookkeeping, the real Tensor.__init__; np.einsum / np.matmul / np.tensordot recorded): every covariant index of x is contracted "
+        "with the SECOND index of a copy of the matrix, every contravariant index with the FIRST index of a copy of the inverse, collection axes of x and "
+        "of a transformation collection are broadcast from the right, and in the result every axis has the index type of the axis of x it replaces",
     )
-    tcls, dcls = prog.find_cls("Tensor"), prog.find_cls("TensorDiagram")
+    tcls = prog.find_cls("Tensor")
+    ap = prog.lookup(tcls, "__apply__") if tcls is not None else None
+    if tcls is None or ap is None:
+        run.add("E17", "Tensor.__apply__", "action", UNDECIDED, "Tensor.__apply__ not found", "")
+        return 0
+    layouts = []
+    for f in (0, 1, 2):
+        for types in ["c", "d", "cc", "dd", "cd", "dc", "ddd"]:
+            layouts.append((f, types))
+    n = _action_for(run, prog, tcls, ap, layouts, {})
+    # overrides that replace the generic action (no super().__apply__): interpreted for the typings of their class
+    quadric = prog.find_cls("QuadricTensor")
+    seen = {ap.qualname}
+    for c in prog.classes.values():
+        m_ = c.methods.get("__apply__")
+        if m_ is None or quadric is None or not prog.is_subclass(c, quadric):
+            continue
+        m_ = prog.body_of(m_)
+        if m_.qualname in seen:
+            continue
+        seen.add(m_.qualname)
+        calls_super = any(isinstance(x, ast.Attribute) and x.attr == "__apply__" and isinstance(x.value, ast.Call) and getattr(x.value.func, "id", "") == "super"
+                          for x in ast.walk(m_.node))
+        if calls_super:
+            continue
+        for is_dual, types in ((False, "dd"), (True, "cc")):
+            n += _action_for(run, prog, c, m_, [(f, types) for f in (0, 1, 2)], {"is_dual": is_dual})
+    return n
+
+
+def _action_for(run: Run, prog: Program, recv_cls, ap, layouts_in: list, attrs: dict) -> int:
+    tcls, dcls = recv_cls, prog.find_cls("TensorDiagram")
     trafo = prog.find_cls("Transformation")
     trafo_coll = prog.find_cls("TransformationCollection")
-    ap = prog.lookup(tcls, "__apply__") if tcls is not None else None
     inv_fn = prog.find_func("geometer.utils.math.inv") or prog.find_func("inv")
     if None in (tcls, dcls, trafo, ap, inv_fn):
-        run.add("E17", "Tensor.__apply__", "action", UNDECIDED, "Tensor.__apply__ / Transformation / inv not all found", "")
+        run.add("E17", ap.short if ap else "Tensor.__apply__", "action", UNDECIDED, "Tensor.__apply__ / Transformation / inv not all found", "")
         return 0
     n = 0
     wrong: list[str] = []
@@ -434,16 +464,15 @@ def rule_action(run: Run, prog: Program) -> int:
     samples: list[str] = []
     # typed objects: (collection axes, covariant positions, contravariant positions) within an array of f + k axes
     layouts = []
-    for f in (0, 1, 2):
-        for types in ["c", "d", "cc", "dd", "cd", "dc", "ddd"]:
-            cov = [f + i for i, t_ in enumerate(types) if t_ == "c"]
-            con = [f + i for i, t_ in enumerate(types) if t_ == "d"]
-            layouts.append((f, cov, con, types))
+    for f, types in layouts_in:
+        cov = [f + i for i, t_ in enumerate(types) if t_ == "c"]
+        con = [f + i for i, t_ in enumerate(types) if t_ == "d"]
+        layouts.append((f, cov, con, types))
     for tf in (0, 1):  # a single transformation / a collection of transformations
         for f, cov, con, types in layouts:
             n += 1
             rank = f + len(types)
-            x = absint.Obj(__cls__=tcls, array=absint.Arr(rank, "f", tuple(("x", i) for i in range(rank))), _covariant_indices=set(cov), _contravariant_indices=set(con))
+            x = absint.Obj(__cls__=tcls, array=absint.Arr(rank, "f", tuple(("x", i) for i in range(rank))), _covariant_indices=set(cov), _contravariant_indices=set(con), **attrs)
             m_arr = absint.Arr(tf + 2, "f", tuple(("M", i) for i in range(tf + 2)))
             t = absint.Obj(__cls__=trafo_coll if tf and trafo_coll is not None else trafo, array=m_arr, _covariant_indices={tf}, _contravariant_indices={tf + 1})
             inv_arrays: list = []
@@ -598,27 +627,28 @@ def rule_action(run: Run, prog: Program) -> int:
                 samples.append(f"{what}: {'+'.join(captured['calls'])}, x index -> (matrix copy, its index): {sorted((k_, v_[0], v_[2] - tf) for k_, v_ in acted.items())}")
     if not hasattr(run, "enumerated"):
         run.enumerated, run.case_samples = {}, {}
-    run.enumerated["E17"] = n_ok
-    run.case_samples["E17"] = samples
+    run.enumerated["E17"] = run.enumerated.get("E17", 0) + n_ok
+    run.case_samples["E17"] = (run.case_samples.get("E17") or []) + samples
     loc = ap.loc
+    tag = "" if not attrs else " (" + ", ".join(f"{k_}={v_}" for k_, v_ in attrs.items()) + ")"
     if unsupported:
         worst = sorted(unsupported.items(), key=lambda kv: -kv[1])[:2]
-        run.add("E17", ap.short, "vocabulary", UNDECIDED, f"{sum(unsupported.values())} of {n} cases could not be interpreted ({'; '.join(f'{k} x{v}' for k, v in worst)})", loc)
+        run.add("E17", ap.short, "vocabulary" + tag, UNDECIDED, f"{sum(unsupported.values())} of {n} cases could not be interpreted ({'; '.join(f'{k} x{v}' for k, v in worst)})", loc)
     from geolint.report import INFO
 
     outside = [w for w in wrong if "'dc'" in w or ("with 0 collection axes" in w and "collection of transformations" in w)]
     std = [w for w in wrong if w not in outside]
     odd = []
     if outside:
-        run.add("E17", ap.short, "combinations outside the statement", INFO,
+        run.add("E17", ap.short, "combinations outside the statement" + tag, INFO,
                 f"{len(outside)} case(s) that C06/C07 do not speak about give a result whose index types do not follow its axes: a COLLECTION of "
                 f"transformations applied to a SINGLE object (the new collection axis is typed like the object's first index: `ts * p` is a malformed Point), "
                 f"and plain tensors that store a contravariant index before a covariant one (calculate() returns the indices covariant-first, the result "
                 f"keeps the index sets of x). Recorded as information; e.g. " + outside[0][:200], loc, {"cases": outside[:12]})
     if std:
-        run.add("E17", ap.short, "action on the geometric kinds", VIOLATION, f"{len(std)} of {n} cases: " + "; ".join(std[:3]), loc, {"failing": std[:20]})
+        run.add("E17", ap.short, "action on the geometric kinds" + tag, VIOLATION, f"{len(std)} of {n} cases: " + "; ".join(std[:3]), loc, {"failing": std[:20]})
     elif not unsupported:
-        run.add("E17", ap.short, "action on the geometric kinds", PROVEN,
+        run.add("E17", ap.short, "action on the geometric kinds" + tag, PROVEN,
                 f"{n_ok - len(odd)} cases (points, hyperplanes, quadrics and dual quadrics, (1,1)-tensors, lines of 3-space; 0-2 collection axes; single transformations and "
                 f"collections): matrix on its second index for every covariant index, inverse on its first for every contravariant one, types follow the axes", loc)
     if odd:
